@@ -56,6 +56,7 @@ NoAnomaly == ev.anom = <<>>
 \* ---------------------------------------------------------------- owned action properties
 T_C07_RelayOnlyAuthorised == [][C07_RelayOnlyAuthorised]_tv
 T_C07_RelayExact == [][C07_RelayExact]_tv
+T_C07_SelfExecuteRefused == [][C07_SelfExecuteRefused]_tv
 T_C07_FailRelaysNothing == [][C07_FailRelaysNothing]_tv
 T_C07_OnlyExecuteRelays == [][C07_OnlyExecuteRelays]_tv
 
@@ -73,6 +74,7 @@ T_C16_CanSound == [][C16_CanSound]_tv
 T_C17_AdminWriters == [][C17_AdminWriters]_tv
 T_C17_AdminExact == [][C17_AdminExact]_tv
 T_C17_FrozenForever == [][C17_FrozenForever]_tv
+T_C17_MigrateKeeps == [][C17_MigrateKeeps]_tv
 T_C17_GrantsByAdmins == [][C17_GrantsByAdmins]_tv
 T_C17_Init == [][C17_Init]_tv
 
